@@ -5,11 +5,13 @@ mod c03;
 mod c05;
 mod c06;
 mod c07;
+mod c08;
 mod c09;
 mod c11;
 mod c12;
 mod c13;
 mod c15;
+mod c16;
 mod c18;
 mod c19;
 mod common;
@@ -85,6 +87,14 @@ fn registry(id: &str) -> Option<PropDef> {
                 "sources are in-memory cursors over borrowed slices, so the measurement contains only the library's own requests",
             ],
         },
+        "C08" => PropDef {
+            level: "exploration",
+            subs: vec![random::<c08::Pairs>()],
+            assumptions: vec![
+                "dbf tables without deleted rows; rows physically present are counted from the dbf header's header-length / record-length fields",
+                "known finding K1 (row rejected by dbase after the shape was written) ends the checking of a history at that call",
+            ],
+        },
         "C09" => PropDef {
             level: "exploration",
             subs: vec![enumerated::<c09::Interleave>()],
@@ -117,6 +127,11 @@ fn registry(id: &str) -> Option<PropDef> {
             level: "exploration",
             subs: vec![enumerated::<c15::Histories>()],
             assumptions: vec!["complete within the stated history-length bound; a read_nth that returns None is modelled as leaving the reader's position unchanged"],
+        },
+        "C16" => PropDef {
+            level: "exploration",
+            subs: vec![random::<c16::Rings>()],
+            assumptions: vec!["orientation asserted on coordinates where the shoelace sum is exact (dyadic, bounded); closure and vertex preservation on arbitrary non-NaN doubles", "'closed' means the library's own == on its point types"],
         },
         "C18" => PropDef {
             level: "exploration",
